@@ -4,6 +4,7 @@ CONSTANTS
   DeepIds = {2, 3}
   BaseIds = {1, 2, 3, 4, 5}
   KindIds = {1, 2, 3}
+  FinalKindIds = {4, 5}
   QuorumLowerBound = TRUE
   EmitScenarios = TRUE
 INVARIANTS CodeSound BasesAccepted Emit
